@@ -24,8 +24,7 @@ DELEGATE = {"belsShare3": "belsShare2"}
 # undocumented or prose-documented extra check) — `accept_f` is not claimed for these
 EXTRA_CHECKS = {"belsRecover": "count == 0 is rejected (ERR_BAD_INPUT), the header gives no bound on count",
                 "belsRecover2": "count == 0 and count > 16 are rejected (ERR_BAD_INPUT), the header gives no bound on count",
-                "bpkiPrivkeyWrap": "privkey_len outside {24,32,48,64} -> ERR_BAD_PRIVKEY (documented in prose)",
-                "bpkiShareWrap": "share_len outside {17,25,33} -> ERR_BAD_SECKEY (documented in prose)"}
+                }
 CONSTS = {"SIZE_MAX": 2 ** 64 - 1, "TIME_ERR": 2 ** 64 - 1}
 
 
@@ -92,7 +91,7 @@ class ParseError(Exception):
     pass
 
 
-TOK = re.compile(r"\s*(<\s*=|>\s*=|==|!=|&&|\|\||[<>!%+*/()\-]|\d+|[A-Za-z_]\w*)")
+TOK = re.compile(r"\s*(\\in|<\s*=|>\s*=|==|!=|&&|\|\||[<>!%+*/(){},\-]|\d+|[A-Za-z_]\w*)")
 
 
 def tokenize(s):
@@ -153,6 +152,18 @@ class P:
                 pass
             self.i = save
         a = self.arith()
+        if self.peek() == "\\in":
+            self.eat()
+            self.eat("{")
+            alts = [("cmp", "==", a, self.arith())]
+            while self.peek() == ",":
+                self.eat()
+                alts.append(("cmp", "==", a, self.arith()))
+            self.eat("}")
+            c = alts[0]
+            for x in alts[1:]:
+                c = ("or", c, x)
+            return c
         links = []
         while self.peek() in ("<", "<=", ">", ">=", "==", "!="):
             op = self.eat()
@@ -287,11 +298,165 @@ def uses_arith(c):
     return any(isinstance(x, tuple) and uses_arith(x) for x in c[1:])
 
 
+# committed: opaque atoms of the code's cascades that have a NAME shared with the headers.
+# (regex on the C text of the atom, name, polarity: True = the atom is the validity predicate itself,
+#  False = the atom is its negation)
+CODE_ATOMS = [
+    (r"^bignIsOperable\(params\)$", "params_ok", True),
+    (r"^pfokParamsIsOperable\(params\)$", "params_ok", True),
+    (r"^params->l != (96|128|192|256)$", "params_ok", False),
+    (r"^oidFromDER\(0, oid_der, oid_len\) == SIZE_MAX$", "oid_ok", False),
+    (r"^rng == 0$", "rng_ok", False),
+    (r"^ang == 0$", "ang_ok", False),
+]
+# committed: prose \expect items of the headers that state exactly such a predicate
+PROSE_ATOMS = [
+    (r"^Параметры params( \(кроме базовой точки P\))? корректны$", "params_ok"),
+    (r"^Идентификатор oid_der корректен$", "oid_ok"),
+    (r"^Генератор rng \(с состоянием rng_state\) корректен$", "rng_ok"),
+    (r"^Генератор ang (корректен и )?выдает неповторяющиеся ключи-кандидаты$", "ang_ok"),
+]
+
+
+def name_atoms(c, atoms):
+    """replace opaque atoms that have a committed name by ('named', name) / its negation; the pair
+    `oid_len == SIZE_MAX || oidFromDER(..) == SIZE_MAX` is the single predicate ¬oid_ok"""
+    k = c[0]
+    if k == "atom":
+        for rx, nm, pos in CODE_ATOMS:
+            if re.match(rx, atoms[c[1]]):
+                return ("named", nm) if pos else ("not", ("named", nm))
+        return c
+    if k == "or":
+        l, r = name_atoms(c[1], atoms), name_atoms(c[2], atoms)
+        if r == ("not", ("named", "oid_ok")) and l[0] == "cmp" and l[1] == "==" and l[2] == ("var", "oid_len") and l[3] == ("const", 2 ** 64 - 1):
+            return r
+        return ("or", l, r)
+    if k in ("and",):
+        return (k, name_atoms(c[1], atoms), name_atoms(c[2], atoms))
+    if k == "not":
+        return ("not", name_atoms(c[1], atoms))
+    return c
+
+
+def named_in(c, acc):
+    if c[0] == "named":
+        if c[1] not in acc:
+            acc.append(c[1])
+    for x in c[1:]:
+        if isinstance(x, tuple):
+            named_in(x, acc)
+    return acc
+
+
+def peval2(c, val):
+    """like peval, keeping ('named', n) symbolic"""
+    if c[0] == "named":
+        return c
+    k = c[0]
+    if k == "atom":
+        return val[c[1]]
+    if k == "not":
+        a = peval2(c[1], val)
+        return (not a) if isinstance(a, bool) else ("not", a)
+    if k in ("or", "and"):
+        a, b = peval2(c[1], val), peval2(c[2], val)
+        absorb = (k == "or")
+        if a is absorb or b is absorb:
+            return absorb
+        if isinstance(a, bool):
+            return b
+        if isinstance(b, bool):
+            return a
+        return (k, a, b)
+    return c
+
+
+def prop_any(c):
+    """cascade residue or header condition as a decidable Prop (named atoms = Bool parameters)"""
+    k = c[0]
+    if k == "named":
+        return "(p_%s = true)" % c[1]
+    if k == "nz":
+        return "(%s ≠ 0)" % x_cfg.lean_expr(c[1])
+    if k == "cmp":
+        return prop_cond(c)
+    if k == "not":
+        return "(¬ %s)" % prop_any(c[1])
+    if k in ("or", "and"):
+        return "(%s %s %s)" % (prop_any(c[1]), "∨" if k == "or" else "∧", prop_any(c[2]))
+    raise Unhandled("cond " + k)
+
+
+def py_expr(e, env):
+    k = e[0]
+    if k == "var":
+        return env[e[1]]
+    if k == "const":
+        return e[1]
+    a, b = py_expr(e[1], env), py_expr(e[2], env)
+    W = 2 ** 64
+    return {"add": (a + b) % W, "sub": (a - b) % W, "mul": (a * b) % W, "div": a // b if b else 0, "mod": a % b if b else 0}[k]
+
+
+def py_cond(c, env):
+    k = c[0]
+    if k == "named":
+        return env["p_" + c[1]]
+    if k == "or":
+        return py_cond(c[1], env) or py_cond(c[2], env)
+    if k == "and":
+        return py_cond(c[1], env) and py_cond(c[2], env)
+    if k == "not":
+        return not py_cond(c[1], env)
+    if k == "nz":
+        return py_expr(c[1], env) != 0
+    a, b = py_expr(c[2], env), py_expr(c[3], env)
+    return {"==": a == b, "!=": a != b, "<": a < b, "<=": a <= b, ">": a > b, ">=": a >= b}[c[1]]
+
+
+def consts_in(c, acc):
+    if isinstance(c, tuple):
+        if c and c[0] == "const":
+            acc.add(c[1])
+        for x in c[1:]:
+            consts_in(x, acc)
+    return acc
+
+
+def order_agrees(residual, items, scal, named):
+    """does the code's cascade return, on a boundary grid, the class of the FIRST violated item in
+    the header's listing order?  (decides whether the order theorem is emitted; Lean then proves it)"""
+    import itertools, random
+    cs = set()
+    for c, _ in residual:
+        consts_in(c, cs)
+    for _, c in items:
+        consts_in(c, cs)
+    vals = sorted({0, 1, 2 ** 64 - 1} | {v for c in cs for v in (max(c - 1, 0), c, min(c + 1, 2 ** 64 - 1))})
+    rnd = random.Random(12345)
+    pts = []
+    grid = list(itertools.product(vals, repeat=len(scal))) if len(vals) ** len(scal) <= 4000 else \
+        [tuple(rnd.choice(vals) for _ in scal) for _ in range(4000)]
+    for g in grid:
+        for bits in itertools.product([True, False], repeat=len(named)):
+            pts.append((g, bits))
+    for g, bits in pts:
+        env = dict(zip(scal, g))
+        env.update({"p_" + n: b for n, b in zip(named, bits)})
+        code = next((e for c, e in residual if py_cond(c, env)), None)
+        first = next((e for e, c in items if not py_cond(c, env)), None)
+        if code != first:
+            return False
+    return True
+
+
 def generate(fns):
-    """-> (Lean text of Bee2V.Gen.C09Checks, report dict)"""
+    """-> (Lean text of Bee2V.Gen.C09Checks, theorems, report dict)"""
     codes = err_codes()
     docs = documented()
     rep = {"functions_with_cascade": 0, "contracts": [], "partial": [], "no_scalar_doc": [], "prose_items": 0,
+           "prose_items_named": 0, "named_items_after_cascade": [], "order_theorems": [], "order_differs": [],
            "unknown_err_names": []}
     out = ["-- GENERATED by xlate/x_c09spec.py (headers' \\expect lists) and xlate/x_cfg.py (argument-check cascades) — do not edit.",
            "set_option linter.unusedVariables false", "namespace Bee2V.Gen.C09Checks", "", "/-- size_t arithmetic wraps modulo 2^64 -/", "def W : Nat := 2 ^ 64", ""]
@@ -317,87 +482,116 @@ def generate(fns):
             continue
         rep["functions_with_cascade"] += 1
         n = f["lname"]
-        used = []
-        for c, e in ch["list"]:
-            x_cfg.vars_of_cond(c, used)
         scal = [p for p in ch["scalars"]]
-        args = " ".join("(a_%s : Nat)" % p for p in scal)
-        # benign valuation of the opaque atoms
+        # benign valuation of the unnamed opaque atoms
         pol = {}
         for c, e in ch["list"]:
             polarity(c, False, pol)
         benign = []
         for i, a in enumerate(ch["atoms"]):
             ps = pol.get(i, set())
-            # literal `o i` (not negated) raises the error when true -> benign false;
-            # literal `!o i` raises it when false -> benign true; both: false
             benign.append(ps == {True})
-        out.append("-- `%s` (%s:%s): leading argument checks.  opaque atoms: %s" % (
-            f["name"], f["src"], f["line"], "; ".join("o %d = `%s`" % (i, a) for i, a in enumerate(ch["atoms"])) or "-"))
-        avs = " ".join("a_" + p for p in scal)
+        named = []
         residual = []
         for c, e in ch["list"]:
-            r = peval(c, benign)
+            r = peval2(name_atoms(c, ch["atoms"]), benign)
             if r is True:
                 raise Unhandled("%s: a check fires under the benign valuation" % f["name"])
             if r is not False:
                 residual.append((r, e))
-        out.append("/-- benign valuation (pointers valid, generators present): %s -/" % (", ".join("o %d := %s" % (i, "true" if b else "false") for i, b in enumerate(benign)) or "-"))
+                named_in(r, named)
+        args = " ".join(["(a_%s : Nat)" % p for p in scal] + ["(p_%s : Bool)" % m for m in named])
+        av = " ".join(["a_" + p for p in scal] + ["p_" + m for m in named])
+        out.append("-- `%s` (%s:%s): leading argument checks.  opaque atoms: %s" % (
+            f["name"], f["src"], f["line"], "; ".join("o %d = `%s`" % (i, a) for i, a in enumerate(ch["atoms"])) or "-"))
+        out.append("/-- unnamed atoms under the benign valuation (pointers valid, optional pointers absent): %s;  named predicates: %s -/" % (
+            ", ".join("o %d := %s" % (i, "true" if b else "false") for i, b in enumerate(benign)) or "-", ", ".join(named) or "-"))
         out.append("def check_%s %s : Option Nat :=" % (n, args))
         for r, e in residual:
-            out.append("  if %s then some %d else" % (prop_code(r), e))
+            out.append("  if %s then some %d else" % (prop_any(r), e))
         out.append("  none\n")
-        evals.append((n, len(scal)))
-        # documented scalar conditions
+        evals.append((n, len(scal), len(named)))
+        # documented conditions: scalar items and named prose items, in the header's order
         d = docs.get(f["name"])
         if not d:
             rep["no_scalar_doc"].append(f["name"])
             continue
-        per_err = {}
+        items = []          # (class, cond, text) in header order
         for en, text in d["items"]:
             en2 = ALIASES.get(en, en)
             if en2 not in codes:
                 rep["unknown_err_names"].append("%s:%s" % (f["name"], en))
                 continue
             try:
-                c = parse_cond(text, set(scal))
-                per_err.setdefault(codes[en2], []).append((c, text))
+                items.append((codes[en2], parse_cond(text, set(scal)), text))
+                continue
             except ParseError:
+                pass
+            hit = next((nm for rx, nm in PROSE_ATOMS if re.match(rx, text)), None)
+            if hit and hit in named:
+                items.append((codes[en2], ("named", hit), text))
+                rep["prose_items_named"] += 1
+            elif hit:
+                rep["named_items_after_cascade"].append("%s:%s" % (f["name"], hit))
                 rep["prose_items"] += 1
-        if not per_err:
+            else:
+                rep["prose_items"] += 1
+        if not items:
             rep["no_scalar_doc"].append(f["name"])
             continue
+        per_err = {}
+        for e, c, t in items:
+            per_err.setdefault(e, []).append((c, t))
         doms = []
         for e in sorted(per_err):
-            conj = " ∧ ".join(prop_cond(c) for c, _ in per_err[e])
+            conj = " ∧ ".join(prop_any(c) for c, _ in per_err[e])
             out.append("/-- documented (%s): returns %d unless  %s -/" % (d["header"], e, " ; ".join(t for _, t in per_err[e])))
             out.append("def dom_%s_%d %s : Prop := %s" % (n, e, args, conj))
             doms.append(e)
-        av = " ".join("a_" + p for p in scal)
         call = "check_%s %s" % (n, av)
         alldom = " ∧ ".join("dom_%s_%d %s" % (n, e, av) for e in doms)
         alts = ["(%s = some %d ∧ ¬ dom_%s_%d %s)" % (call, e, n, e, av) for e in doms]
-        bounds = " ".join("(h_%s : a_%s < W)" % (p, p) for p in scal) if any(uses_arith(c) for c, _ in residual) or any(uses_arith(c) for e in per_err for c, _ in per_err[e]) else ""
+        bounds = " ".join("(h_%s : a_%s < W)" % (p, p) for p in scal) if any(uses_arith(c) for c, _ in residual) or any(uses_arith(c) for _, c, _ in items) else ""
         defs = ", ".join(["W"] + ["dom_%s_%d" % (n, e) for e in doms])
-        proof = ("  intro hd\n  generalize hr : %s = r\n  simp only [check_%s] at hr\n  simp only [%s] at *\n"
-                 "  repeat' split at hr\n  all_goals (subst hr; first | omega | (simp <;> omega))" % (call, n, defs))
-        thms.append((n, "/-- outside the documented scalar domain `%s` returns a documented class whose condition is violated -/\n"
-                        "theorem contract_%s %s %s :\n    ¬ (%s) →\n    %s := by\n%s" % (f["name"], n, args, bounds, alldom, " ∨\n    ".join(alts), proof), doms))
+        csplit = "".join("cases p_%s <;> " % m for m in named)
+        fin = "%sfirst | omega | (simp at * <;> omega) | simp_all" % csplit
+        tail = ("generalize hr : %s = r\n  simp only [check_%s] at hr\n  simp only [%s] at *\n"
+                "  repeat' split at hr\n  all_goals (subst hr; %s)") % (call, n, defs, fin)
+        def wrap(body):
+            return "  " + body
+        pf = wrap("intro hd\n  " + tail)
+        thms.append((n, "/-- outside the documented domain `%s` returns a documented class whose condition is violated -/\n"
+                        "theorem contract_%s %s %s :\n    ¬ (%s) →\n    %s := by\n%s" % (f["name"], n, args, bounds, alldom, " ∨\n    ".join(alts), pf), doms))
         if f["name"] in EXTRA_CHECKS:
             rep["partial"].append("%s: %s" % (f["name"], EXTRA_CHECKS[f["name"]]))
         else:
-            thms.append((n, "/-- inside the documented scalar domain (pointers valid) `%s` passes its argument checks -/\n"
-                            "theorem accept_%s %s %s :\n    %s → %s = none := by\n%s" % (f["name"], n, args, bounds, alldom, call, proof), doms))
+            thms.append((n, "/-- inside the documented domain (pointers valid) `%s` passes its argument checks -/\n"
+                            "theorem accept_%s %s %s :\n    %s → %s = none := by\n%s" % (f["name"], n, args, bounds, alldom, call, pf), doms))
+            # ORDER: the class returned is that of the first violated item in the header's listing order
+            if len(items) >= 2 and order_agrees(residual, [(e, c) for e, c, _ in items], scal, named):
+                out.append("/-- the header's \\expect items of `%s` in listing order: class of the first one violated -/" % f["name"])
+                out.append("def first_%s %s : Option Nat :=" % (n, args))
+                for e, c, t in items:
+                    out.append("  if ¬ %s then some %d else" % (prop_any(c), e))
+                out.append("  none")
+                pfo = wrap("generalize hr : %s = r\n  generalize hq : first_%s %s = q\n  simp only [check_%s] at hr\n  simp only [first_%s] at hq\n"
+                           "  try simp only [W] at *\n  repeat' split at hr\n  all_goals (repeat' split at hq)\n"
+                           "  all_goals (subst hr; subst hq; %sfirst | rfl | omega | (simp at * <;> omega) | simp_all)" % (call, n, av, n, n, csplit))
+                thms.append((n, "/-- ORDER: `%s` returns the class of the FIRST \\expect item (header listing order) that is violated -/\n"
+                                "theorem order_%s %s %s :\n    %s = first_%s %s := by\n%s" % (f["name"], n, args, bounds, call, n, av, pfo), doms))
+                rep["order_theorems"].append(f["name"])
+            elif len(items) >= 2:
+                rep["order_differs"].append(f["name"])
         rep["contracts"].append(f["name"])
         out.append("")
     # evaluator for the driver
-    out.append("/-- evaluate a cascade by name on scalar arguments (benign valuation of the opaque atoms) -/")
+    out.append("/-- evaluate a cascade by name on scalar arguments (benign valuation; named predicates true) -/")
     out.append("def evalCheck (name : String) (a : Array Nat) : Option (Option Nat) :=")
-    for n, k in evals:
+    for n, k, m in evals:
         out.append('  if name = "%s" then (if a.size = %d then some (check_%s %s) else none) else' % (
-            n, k, n, " ".join("(a[%d]!)" % i for i in range(k))))
+            n, k, n, " ".join(["(a[%d]!)" % i for i in range(k)] + ["true"] * m)))
     out.append("  none\n")
-    out.append("def names : List String := [%s]\n" % ", ".join('"%s"' % n for n, _ in evals))
+    out.append("def names : List String := [%s]\n" % ", ".join('"%s"' % n for n, _, _ in evals))
     out.append("end Bee2V.Gen.C09Checks")
     return "\n".join(out) + "\n", thms, rep
 
